@@ -57,7 +57,7 @@ int main(int argc, char **argv) {
 	for (check_t *c = checks; c->id; c++) c->reg();
 	if (argc >= 3 && !strcmp(argv[1], "replay")) return do_replay(argv[2]);
 	if (argc >= 4 && !strcmp(argv[1], "run")) {
-		const char *jobs = getenv("VERIF_JOBS"); int P = jobs ? atoi(jobs) : 16; if (P < 1) P = 1; if (P > 200) P = 200;
+		const char *jobs = getenv("VERIF_JOBS"); int P = jobs ? atoi(jobs) : 20; if (P < 1) P = 1; if (P > 200) P = 200;
 		const char *to = getenv("VERIF_CHILD_TIMEOUT");
 		run_init(P, to ? atof(to) : 30.0);
 		const char *dl = getenv("VERIF_DEADLINE"); if (dl) rep_deadline_s = atof(dl);
